@@ -3,7 +3,7 @@
     [wf] is the object invariant (sign is 1 or -1, at least one word, words < 2^64, a negative bignum is
     not zero; fixnums are 62-bit).  The right-hand sides are Coq's Z operations, i.e. the operations on the
     infinite two's-complement bit string (Z.testbit). *)
-From ChibiV Require Import Common.Words C17.Model C17.Spec C17.Proofs C17.ProofsOps C17.ProofsShift C17.ProofsBitset C17.ProofsLength C17.ProofsCount.
+From ChibiV Require Import Common.Words C17.Model C17.Spec C17.Proofs C17.ProofsOps C17.ProofsShift C17.ProofsBitset C17.ProofsLength C17.ProofsCount C17.LeafTie Gen.C17_Leaf.
 Local Open Scope Z_scope.
 
 (** sexp_set_twos_complement: the converted words are (-|n|) mod B^len *)
@@ -58,3 +58,11 @@ Print Assumptions bit_count_Z_partial.
 Theorem popcount_is_testbit_count : forall k n, 0 <= n < 2 ^ Z.of_nat k -> Zpopcount n = count_bits k n.
 Proof. exact Zpopcount_testbit. Qed.
 Print Assumptions popcount_is_testbit_count.
+
+(** (G) the table of integer_log2 and the SWAR constants of bit_count, regenerated from bit.c on every
+    run, are the ones in the model *)
+Theorem leaf_data_matches_source :
+  src_log_table_256 = log_table_256 /\ src_M1 = M1 /\ src_M2a = M2 /\ src_M2b = M2 /\ src_M4 = M4
+  /\ src_H01 = H01 /\ src_final_shift = 56.
+Proof. exact leaf_data_ok. Qed.
+Print Assumptions leaf_data_matches_source.
